@@ -17,7 +17,10 @@ RULE = ("model tie (whole traces): Checker.iter_hashes() over FeedChecker / Hash
         "metafile kind (6 creators + reference v1 / v2 without info.length / hybrid without trailing pad) x (intact + damage sets of "
         "1..4 flips/truncations/removals): returned float == (matched_ref / total_ref) * 100 in the same arithmetic and the (verdict, "
         "size) stream == the reference verifier's (v2: on the pieces whose missing described bytes are not all zero); a part through "
-        "cli.execute and `python -m torrentfile recheck`.  Aimed class: recorded digest valid UTF-8.  A case is non-trivial when it is "
+        "cli.execute and `python -m torrentfile recheck`.  A Checker object created on the intact tree and asked again after each damage "
+        "set must answer like a fresh one.  Aimed classes: recorded digest valid UTF-8; all-zero final partial piece absent; an ABSENT "
+        "zero-length file that is not the first file followed by damaged files; piece lengths 64/128 KiB with 3/5/6/7 blocks below one "
+        "piece or in the last piece (intact and damaged; model tie and every v2-view kind end to end).  A case is non-trivial when it is "
         "distinct and hits at least one boundary class of DESIGN Appendix B (recheck row).")
 TRUSTED_BASE = rc.TRUSTED_BASE
 ASSUMPTIONS = rc.ASSUMPTIONS
